@@ -210,6 +210,7 @@ func init() {
 		evs := collEventSpecs(r, []string{"twin", "ev:commit1", "ev:creopen"}, 1, ed)
 		r.ExploreSpecs(evs)
 		r.RunTaskGroup("one collision group grown to 258 keys at the default limit (3 shapes x 2 slab sizes)", "colldeep", collDeepArgs())
+		r.RunTaskGroup("full index root + collapsing collision group in a filled leaf (every position x 3 sizes x either member)", "rootfull", rootFullArgs(r.Thorough()))
 		// collision groups in every leaf of a map growing to three levels; every present key removed / shrunk from every seed
 		// (thorough tier only: the depth-2 neighbourhoods of these 130-entry seeds cost minutes)
 		if r.Thorough() {
